@@ -2171,6 +2171,24 @@ impl<'a> Searcher<'a> {
                     }
                 }
                 VariantType::Int => {
+                    // a number with a fractional part (`size > 2.5`) is no integer and no size with a unit:
+                    // it used to be read as 0
+                    let literal = value.to_string();
+                    if literal.parse::<i64>().is_err() {
+                        if let Ok(val) = literal.parse::<f64>() {
+                            let float_value = field_value.to_float();
+                            return match op {
+                                Op::Eq | Op::Eeq => float_value == val,
+                                Op::Ne | Op::Ene => float_value != val,
+                                Op::Gt => float_value > val,
+                                Op::Gte => float_value >= val,
+                                Op::Lt => float_value < val,
+                                Op::Lte => float_value <= val,
+                                _ => false,
+                            };
+                        }
+                    }
+
                     let val = value.to_int();
                     let int_value = field_value.to_int();
                     match op {
